@@ -1082,6 +1082,8 @@ class Interp:
         if isinstance(base, VExc):
             if name == "args":
                 return VTuple(base.args)
+            if name == "__class__":
+                return VClass(base.cls)
             if name in base.fields:
                 return base.fields[name]
             a = E.find_attr(base.cls, name)
@@ -1514,7 +1516,13 @@ class Interp:
     def s_Try(self, s, fr):
         def body():
             try:
-                self.exec_block(s.body, fr)
+                if s.handlers:
+                    self.handler_depth = getattr(self, "handler_depth", 0) + 1
+                try:
+                    self.exec_block(s.body, fr)
+                finally:
+                    if s.handlers:
+                        self.handler_depth -= 1
             except PyExc as pe:
                 for h in s.handlers:
                     if self.handler_matches(h, pe.exc, fr):
